@@ -42,49 +42,19 @@ Theorem C14_mul_spec_is_rational_floor : forall wa fa wb fb wr fr a b,
   spec_mul_Q wa fa wb fb wr fr a b = spec_mul wa fa wb fb wr fr a b.
 Proof. exact spec_mul_rational. Qed.
 
-(* wiring with pw = max(wa+wb, low+wr)  (fixes/C14-F1.diff): every format triple, no guard on the top of the window;
+(* FixedPointMult as wired in /repo, pw = max(wa+wb, low+wr): every format triple, no guard on the top of the window;
    identical to the wa+wb wiring wherever that one was right *)
-Theorem C14_mul_fixed : forall af bf rf a b, wf af -> wf bf -> wf rf -> enc af a -> enc bf b ->
+Theorem C14_mul : forall af bf rf a b, wf af -> wf bf -> wf rf -> enc af a -> enc bf b ->
   0 <= mul_low af bf rf ->
   fxmul_fixed af bf rf a b = Some (spec_mul (fwidth af) (ffrac af) (fwidth bf) (ffrac bf) (fwidth rf) (ffrac rf) a b).
 Proof. exact fxmul_fixed_spec. Qed.
-Theorem C14_mul_fixed_low_negative : forall af bf rf a b, mul_low af bf rf < 0 -> fxmul_fixed af bf rf a b = None.
+Theorem C14_mul_low_negative : forall af bf rf a b, mul_low af bf rf < 0 -> fxmul_fixed af bf rf a b = None.
 Proof. exact fxmul_fixed_window_below. Qed.
 Theorem C14_mul_fixed_conservative : forall af bf rf a b, mul_low af bf rf + fwidth rf <= fwidth af + fwidth bf ->
   fxmul_fixed af bf rf a b = fxmul af bf rf a b.
 Proof. exact fxmul_fixed_same. Qed.
 
-(* <C14-F1> *)
-(* wiring with pw = wa+wb  (/repo before the repair of finding C14-F1): right when the window ends inside the double-width
-   product (low + wr <= wa + wb), refuted beyond. *)
-Theorem C14_mul : forall af bf rf a b, wf af -> wf bf -> wf rf -> enc af a -> enc bf b ->
-  0 <= mul_low af bf rf -> mul_low af bf rf + fwidth rf <= fwidth af + fwidth bf ->
-  fxmul af bf rf a b = Some (spec_mul (fwidth af) (ffrac af) (fwidth bf) (ffrac bf) (fwidth rf) (ffrac rf) a b).
-Proof. exact fxmul_spec. Qed.
-Theorem C14_mul_low_negative : forall af bf rf a b, mul_low af bf rf < 0 -> fxmul af bf rf a b = None.
-Proof. exact fxmul_window_below. Qed.
-(* FINDING C14-F1: a result format whose window reaches above bit wa+wb-1 gets zeros there instead of sign bits *)
-Theorem C14_mul_wide_window_refuted : exists af bf rf a b, wf af /\ wf bf /\ wf rf /\ enc af a /\ enc bf b /\
-  0 <= mul_low af bf rf /\ fwidth af + fwidth bf < mul_low af bf rf + fwidth rf /\
-  fxmul af bf rf a b = Some 3 /\
-  spec_mul (fwidth af) (ffrac af) (fwidth bf) (ffrac bf) (fwidth rf) (ffrac rf) a b = 31.
-Proof. exact fxmul_wide_window_refuted. Qed.
-(* the exact extent of C14-F1 when the window is too wide: right for every non-negative product, wrong for EVERY negative one *)
-Theorem C14_mul_nonneg_any_window : forall af bf rf a b, wf af -> wf bf -> wf rf -> enc af a -> enc bf b ->
-  0 <= mul_low af bf rf -> 0 <= fxint (fwidth af) a * fxint (fwidth bf) b ->
-  fxmul af bf rf a b = Some (spec_mul (fwidth af) (ffrac af) (fwidth bf) (ffrac bf) (fwidth rf) (ffrac rf) a b).
-Proof. exact fxmul_spec_nonneg. Qed.
-Theorem C14_mul_wide_window_negative_wrong : forall af bf rf a b, wf af -> wf bf -> wf rf -> enc af a -> enc bf b ->
-  0 <= mul_low af bf rf -> fwidth af + fwidth bf < mul_low af bf rf + fwidth rf ->
-  fxint (fwidth af) a * fxint (fwidth bf) b < 0 ->
-  fxmul af bf rf a b <> Some (spec_mul (fwidth af) (ffrac af) (fwidth bf) (ffrac bf) (fwidth rf) (ffrac rf) a b).
-Proof. exact fxmul_wide_window_neg. Qed.
-Print Assumptions C14_mul.
-Print Assumptions C14_mul_low_negative.
-Print Assumptions C14_mul_wide_window_refuted.
-Print Assumptions C14_mul_nonneg_any_window.
-Print Assumptions C14_mul_wide_window_negative_wrong.
-(* </C14-F1> *)
+(* C14-F1: repaired in /repo (226a225); the pre-repair theorems were retired by fixes/C14_switch.py *)
 
 (* sign block: bit i+f, which is 1 exactly for the negative values *)
 Theorem C14_sign : forall F a, wf F -> enc F a ->
@@ -111,11 +81,7 @@ Theorem C14_helper_sub : forall F a b, wf F -> fxh_sub F a b = fxsub F F F a b.
 Proof. exact fxh_sub_agrees. Qed.
 Theorem C14_helper_mult : forall F a b, wf F -> enc F a -> enc F b -> fxh_mult F a b = fxmul_fixed F F F a b.
 Proof. exact fxh_mult_agrees_fixed. Qed.
-(* <C14-F1> *)
-Theorem C14_helper_mult_prerepair : forall F a b, wf F -> enc F a -> enc F b -> fxh_mult F a b = fxmul F F F a b.
-Proof. exact fxh_mult_agrees. Qed.
-Print Assumptions C14_helper_mult_prerepair.
-(* </C14-F1> *)
+(* C14-F1: repaired in /repo (226a225); the pre-repair theorems were retired by fixes/C14_switch.py *)
 
 (* non-vacuity of the hypotheses, on non-trivial instances *)
 Example C14_mul_instance :     (* (1,2,2) x (1,1,3) -> (1,3,2):  -1.75 * 0.625 = -1.09375 -> floor to quarters = -1.25 = 0b111011 *)
@@ -151,8 +117,8 @@ Print Assumptions C14_add_mixed_rejected.
 Print Assumptions C14_sub_mixed_rejected.
 Print Assumptions C14_mul_any_product_width.
 Print Assumptions C14_mul_spec_is_rational_floor.
-Print Assumptions C14_mul_fixed.
-Print Assumptions C14_mul_fixed_low_negative.
+Print Assumptions C14_mul.
+Print Assumptions C14_mul_low_negative.
 Print Assumptions C14_mul_fixed_conservative.
 Print Assumptions C14_sign.
 Print Assumptions C14_cmp_eq.
